@@ -98,12 +98,15 @@ def needs (a b : Replica) : Ranges := compare (haveOf a) (haveOf b)
 def sendList (a b : Replica) : List SOp :=
   (needs a b).flatMap fun ar => ar.2.flatMap fun lr => selectLog a.store ar.1 lr.1 lr.2
 
+/-- one `get_log_size` call of `SendPreSync` added to the running totals -/
+def totalsStep (store : List SOp) (acc : Nat × Nat) (t : Nat × Nat × Range) : Nat × Nat :=
+  match getSize store t.1 t.2.1 t.2.2 with
+  | none => acc
+  | some (n, by_) => (acc.1 + n, acc.2 + by_)
+
 /-- totals of `SendPreSync`: `(operations, bytes)` summed over `get_log_size` of every needed range -/
 def preSyncTotals (a b : Replica) : Nat × Nat :=
-  (flattenNeeds (needs a b)).foldl (fun acc t =>
-    match getSize a.store t.1 t.2.1 t.2.2 with
-    | none => acc
-    | some (n, by_) => (acc.1 + n, acc.2 + by_)) (0, 0)
+  (flattenNeeds (needs a b)).foldl (totalsStep a.store) (0, 0)
 
 def toOp (e : SOp) : Op := { id := e.id, bytes := e.bytes }
 
